@@ -140,8 +140,22 @@ class _Strip(ast.NodeTransformer):
                 if isinstance(x, ast.Constant) and isinstance(x.value, str):
                     x.value = ""
                 if isinstance(x, ast.JoinedStr):
-                    x.values = [v for v in x.values if not isinstance(v, ast.Constant)]
+                    x.values = [v for v in x.values if not isinstance(v, ast.Constant) and not self._harmless_piece(v, n)]
         return n
+
+    def _harmless_piece(self, v, stmt) -> bool:
+        """`{self.attr}` / `{name}` without format spec in the text of a warning, when the function
+        reads the same attribute / name elsewhere (so it exists): printing it cannot raise."""
+        if not (isinstance(v, ast.FormattedValue) and v.format_spec is None and v.conversion == -1):
+            return False
+        e = v.value
+        fn = getattr(self, "_fn", None)
+        if fn is None:
+            return False
+        inside = {id(y) for y in ast.walk(stmt)}
+        if isinstance(e, ast.Attribute) and isinstance(e.value, ast.Name) and e.value.id == "self":
+            return any(isinstance(y, ast.Attribute) and y.attr == e.attr and isinstance(y.value, ast.Name) and y.value.id == "self" and isinstance(y.ctx, ast.Load) and id(y) not in inside for y in ast.walk(fn))
+        return False
 
     def visit_Assert(self, n):
         self.generic_visit(n)
@@ -204,7 +218,9 @@ def _strip_block(stmts: List[ast.stmt]) -> List[ast.stmt]:
 
 
 def strip(fn):
-    fn = _Strip().visit(fn)
+    st_ = _Strip()
+    st_._fn = fn
+    fn = st_.visit(fn)
     for owner, f, stmts in _blocks(fn):
         setattr(owner, f, _strip_block(stmts))
     return fn
@@ -632,6 +648,29 @@ def merge_param_alias(fn):
     return fn
 
 
+def coalesce_dead_copies(fn):
+    """b = a  at the top level of the function, where a is never mentioned again and b never before:
+    b is a new name for the same variable (a helper parameter re-bound in the helper's loop)."""
+    for i, st in enumerate(fn.body):
+        if not (isinstance(st, ast.Assign) and len(st.targets) == 1 and isinstance(st.targets[0], ast.Name) and isinstance(st.value, ast.Name)):
+            continue
+        b, a = st.targets[0].id, st.value.id
+        if a == b or a == "self" or _has_nested_scope(fn):
+            continue
+        before = [x for s_ in fn.body[:i] for x in ast.walk(s_) if isinstance(x, ast.Name)]
+        after = [x for s_ in fn.body[i + 1:] for x in ast.walk(s_) if isinstance(x, ast.Name)]
+        if any(x.id == b for x in before) or any(x.id == a for x in after) or b in _params(fn):
+            continue
+        for x in after:
+            if x.id == b:
+                x.id = a
+        del fn.body[i]
+        if not fn.body:
+            fn.body.append(ast.Pass())
+        return coalesce_dead_copies(fn)
+    return fn
+
+
 def fuse_chains(fn):
     """x = E1 ; x = E2(x)   ->   x = E2(E1)   when E1 is pure and x occurs once in E2 (a call chain
     split over two statements, or the reverse)."""
@@ -879,8 +918,68 @@ def _monotone_breaks(fn):
     return fn
 
 
+def prune_none_tests(fn):
+    """`if x is None: A else: B`  ->  B  when an earlier statement that always ran (same block or an
+    enclosing one, x not re-bound since) evaluates `x.<attr>`: it would have raised on None."""
+    def derefs(node) -> Set[str]:
+        out = set()
+        for n in [node] + list(_walk_no_nested(node)):
+            if isinstance(n, ast.Attribute) and isinstance(n.value, ast.Name) and isinstance(n.ctx, ast.Load) and not n.attr.startswith("__"):
+                out.add(n.value.id)  # (None has dunder attributes only)
+        return out
+
+    def uncond_derefs(st) -> Set[str]:
+        # dereferences that happen whenever the statement completes: not those under its own branches
+        if isinstance(st, (ast.If, ast.While)):
+            return derefs(st.test) if not isinstance(st.test, ast.BoolOp) else set()
+        if isinstance(st, ast.For):
+            return derefs(st.iter)
+        if isinstance(st, (ast.With, ast.Try, ast.FunctionDef, ast.ClassDef)):
+            return set()
+        if any(isinstance(n, (ast.IfExp, ast.BoolOp, ast.Lambda, ast.ListComp, ast.SetComp, ast.DictComp, ast.GeneratorExp)) for n in ast.walk(st)):
+            return set()
+        return derefs(st)
+
+    def stores(node) -> Set[str]:
+        return {n.id for n in ast.walk(node) if isinstance(n, ast.Name) and isinstance(n.ctx, (ast.Store, ast.Del))}
+
+    def block(stmts, known: Set[str]):
+        known = set(known)
+        out = []
+        for st in stmts:
+            if isinstance(st, ast.If):
+                t, pos = st.test, True
+                while isinstance(t, ast.UnaryOp) and isinstance(t.op, ast.Not):
+                    t, pos = t.operand, not pos
+                if (isinstance(t, ast.Compare) and len(t.ops) == 1 and isinstance(t.ops[0], (ast.Is, ast.IsNot)) and isinstance(t.left, ast.Name) and t.left.id in known
+                        and isinstance(t.comparators[0], ast.Constant) and t.comparators[0].value is None):
+                    is_none_branch = isinstance(t.ops[0], ast.Is) == pos
+                    chosen = st.orelse if is_none_branch else st.body
+                    sub = block(chosen, known)
+                    out.extend(sub)
+                    known -= stores(st)
+                    continue
+                st.body = block(st.body, known) or [ast.Pass()]
+                st.orelse = block(st.orelse, known)
+            elif isinstance(st, (ast.For, ast.While)):
+                inner = known - stores(st)
+                st.body = block(st.body, inner) or [ast.Pass()]
+                st.orelse = block(st.orelse, inner)
+            elif isinstance(st, ast.With):
+                st.body = block(st.body, known - stores(st)) or [ast.Pass()]
+            known -= stores(st)
+            known |= uncond_derefs(st) - stores(st)
+            out.append(st)
+        return out
+
+    fn.body = block(fn.body, set()) or [ast.Pass()]
+    ast.fix_missing_locations(fn)
+    return fn
+
+
 def control_flow(fn):
     fn = _monotone_breaks(fn)
+    fn = prune_none_tests(fn)
     fn.body = _norm_block(fn.body, "return") or [ast.Pass()]
     ast.fix_missing_locations(fn)
     return fn
@@ -1160,6 +1259,7 @@ def _as_store(t):
 _LIST_RETURNING: Set[str] = set()  # module-level repo functions annotated `-> list[...]` (in both trees)
 _EAGER_GENERATORS: Set[str] = set()
 _YIELD_OPAQUE = False
+_PARAM_MUT: Dict[str, Tuple[List[str], Set[str]]] = {}  # module-level functions that only change some of their arguments (both trees agree)
 _REPO_FUNCS: Set[str] = set()
 _PURE_FUNCS: Set[str] = set()
 _BUILTIN_PURE = {"len", "list", "sorted", "set", "dict", "tuple", "str", "int", "float", "any", "all", "max", "min", "sum", "range", "zip", "enumerate",
@@ -1253,6 +1353,152 @@ def _function_is_pure(fn, pure: Set[str], repo: Set[str], constructor: bool = Fa
                 if f.id in repo and f.id not in pure:
                     return False
     return True
+
+
+def param_mutation_summaries(trees: List[ast.Module], pure: Set[str], repo: Set[str]) -> Dict[str, Tuple[List[str], Set[str]]]:
+    """Module-level functions whose only effects are changes to (some of) their own arguments:
+    name -> (parameter names in order, names of the parameters that may be changed).  A function
+    with any other effect (global, attribute of something else, unknown repository call, yield) has
+    no entry."""
+    funcs: Dict[str, List[ast.FunctionDef]] = {}
+    for t in trees:
+        for n in t.body:
+            if isinstance(n, ast.FunctionDef):
+                funcs.setdefault(n.name, []).append(n)
+    funcs = {k: v[0] for k, v in funcs.items() if len(v) == 1 and k not in pure}
+    summ: Dict[str, Tuple[List[str], Set[str]]] = {}
+
+    def analyse(fn, known) -> Optional[Set[str]]:
+        params = _params(fn)
+        pset = set(params)
+        if fn.args.vararg or fn.args.kwarg:
+            return None
+        fresh_locals = _fresh_locals(fn)
+        mutated: Set[str] = set()
+        for n in _walk_no_nested(fn):
+            if isinstance(n, (ast.Global, ast.Nonlocal, ast.Yield, ast.YieldFrom, ast.Lambda, ast.FunctionDef)):
+                return None
+            if isinstance(n, ast.Name) and isinstance(n.ctx, ast.Store) and n.id in pset and not isinstance(getattr(n, "_aug", None), ast.AST):
+                pass
+            if isinstance(n, ast.Assign):
+                for t in n.targets:
+                    for x in ast.walk(t):
+                        if isinstance(x, ast.Name) and isinstance(x.ctx, ast.Store) and x.id in pset:
+                            return None  # a re-bound parameter: later mutations may or may not reach the argument
+            if isinstance(n, (ast.Attribute, ast.Subscript)) and isinstance(n.ctx, (ast.Store, ast.Del)):
+                base = n
+                while isinstance(base, (ast.Attribute, ast.Subscript)):
+                    base = base.value
+                if isinstance(base, ast.Name) and base.id in pset:
+                    mutated.add(base.id)
+                elif isinstance(base, ast.Name) and base.id in fresh_locals:
+                    pass
+                else:
+                    return None
+            if isinstance(n, ast.AugAssign):
+                if isinstance(n.target, ast.Name):
+                    if n.target.id in pset:
+                        mutated.add(n.target.id)
+                    # a local: `x += ..` may change the object x was bound to: fresh locals only
+                    elif n.target.id not in fresh_locals and not isinstance(n.value, (ast.Constant,)):
+                        return None
+            if isinstance(n, ast.Call):
+                if any(k.arg == "inplace" for k in n.keywords):
+                    return None
+                f = n.func
+                if isinstance(f, ast.Attribute):
+                    if f.attr in MUTATORS and f.attr not in PANDAS_PURE:
+                        if isinstance(f.value, ast.Name) and f.value.id in pset:
+                            mutated.add(f.value.id)
+                        elif isinstance(f.value, ast.Name) and f.value.id in fresh_locals:
+                            pass
+                        else:
+                            return None
+                    elif f.attr in repo and f.attr not in pure and f.attr not in _LIB_PURE_METHODS:
+                        return None
+                elif isinstance(f, ast.Name):
+                    if f.id in ("setattr", "delattr", "exec", "eval", "open", "next"):
+                        return None
+                    if f.id in repo and f.id not in pure:
+                        # (least fixed point: a recursive call changes what the previous round found)
+                        callee = known.get(f.id) or ((params, set()) if f.id == fn.name else None)
+                        if callee is None:
+                            return None
+                        cparams, cmut = callee
+                        bound = {}
+                        for i_, a_ in enumerate(n.args):
+                            if isinstance(a_, ast.Starred) or i_ >= len(cparams):
+                                return None
+                            bound[cparams[i_]] = a_
+                        for k_ in n.keywords:
+                            if k_.arg is None:
+                                return None
+                            bound[k_.arg] = k_.value
+                        for pn in cmut:
+                            a_ = bound.get(pn)
+                            if a_ is None:
+                                continue
+                            base = a_
+                            while isinstance(base, (ast.Attribute, ast.Subscript)):
+                                if isinstance(base, ast.Subscript) and not isinstance(base.slice, ast.Slice) and not isinstance(a_, ast.Name):
+                                    # an element / a boolean-mask selection: treated as reaching the container
+                                    pass
+                                base = base.value
+                            if isinstance(base, ast.Name):
+                                if base.id in pset:
+                                    mutated.add(base.id)
+                                elif base.id in fresh_locals:
+                                    pass
+                                else:
+                                    return None
+                            elif isinstance(base, (ast.List, ast.Dict, ast.Set, ast.ListComp, ast.Call, ast.Constant, ast.BinOp)):
+                                pass  # a fresh object
+                            else:
+                                return None
+        return mutated
+
+    for _ in range(4):
+        new = {}
+        for name, fn in funcs.items():
+            r = analyse(fn, summ)
+            if r is not None:
+                new[name] = (_params(fn), r)
+        if {k: (v[0], frozenset(v[1])) for k, v in new.items()} == {k: (v[0], frozenset(v[1])) for k, v in summ.items()}:
+            break
+        summ = new
+    return summ
+
+
+def _mutated_args(c: ast.Call) -> Optional[Set[str]]:
+    """For a call of a function with a parameter-mutation summary: the local names whose object may
+    be changed by the call (None: no summary / cannot tell)."""
+    if not (isinstance(c.func, ast.Name) and c.func.id in _PARAM_MUT):
+        return None
+    cparams, cmut = _PARAM_MUT[c.func.id]
+    bound = {}
+    for i_, a_ in enumerate(c.args):
+        if isinstance(a_, ast.Starred) or i_ >= len(cparams):
+            return None
+        bound[cparams[i_]] = a_
+    for k_ in c.keywords:
+        if k_.arg is None:
+            return None
+        bound[k_.arg] = k_.value
+    out: Set[str] = set()
+    for pn in cmut:
+        a_ = bound.get(pn)
+        if a_ is None:
+            continue
+        base = a_
+        while isinstance(base, (ast.Attribute, ast.Subscript)):
+            base = base.value
+        if isinstance(base, ast.Name):
+            out.add(base.id)
+        elif isinstance(base, (ast.List, ast.Dict, ast.Set, ast.ListComp, ast.Constant, ast.BinOp)):
+            pass
+        else:
+            return None
+    return out
 
 
 def pure_function_names(trees: List[ast.Module]) -> Tuple[Set[str], Set[str]]:
@@ -1566,6 +1812,17 @@ class _ExprCanon(ast.NodeTransformer):
         if isinstance(c, ast.Call) and isinstance(c.func, ast.Attribute) and c.func.attr == "update" and len(c.args) == 1 and not c.keywords and isinstance(c.args[0], ast.Dict) and len(c.args[0].keys) == 1 and c.args[0].keys[0] is not None:
             tgt = ast.Subscript(value=c.func.value, slice=c.args[0].keys[0], ctx=ast.Store())
             return ast.Assign(targets=[tgt], value=c.args[0].values[0])
+        # d.pop(k, None) as a statement  ->  if k in d: d.pop(k)   (two-argument pop exists on dicts only)
+        if (isinstance(c, ast.Call) and isinstance(c.func, ast.Attribute) and c.func.attr == "pop" and len(c.args) == 2 and not c.keywords
+                and isinstance(c.args[1], ast.Constant) and c.args[1].value is None and _is_place(c.func.value) and isinstance(c.args[0], (ast.Name, ast.Constant))):
+            test = ast.Compare(left=copy.deepcopy(c.args[0]), ops=[ast.In()], comparators=[copy.deepcopy(c.func.value)])
+            c.args = [c.args[0]]
+            return ast.If(test=test, body=[n], orelse=[])
+        # L.extend(<comprehension>) -> L += [<comprehension>] for a local that is syntactically a list
+        if (isinstance(c, ast.Call) and isinstance(c.func, ast.Attribute) and c.func.attr == "extend" and len(c.args) == 1 and not c.keywords and isinstance(c.args[0], (ast.ListComp, ast.GeneratorExp))
+                and isinstance(c.func.value, ast.Name) and c.func.value.id in self.list_names):
+            comp = c.args[0]
+            return ast.AugAssign(target=ast.Name(id=c.func.value.id, ctx=ast.Store()), op=ast.Add(), value=ast.ListComp(elt=comp.elt, generators=comp.generators))
         # L.extend([e]) -> L.append(e)
         if isinstance(c, ast.Call) and isinstance(c.func, ast.Attribute) and c.func.attr == "extend" and len(c.args) == 1 and isinstance(c.args[0], ast.List) and len(c.args[0].elts) == 1:
             c.func.attr = "append"
@@ -1795,6 +2052,40 @@ def _enumerate_to_range(fn):
     return fn
 
 
+def _enumerate_to_range_comp(fn):
+    """[f(i, x) for i, x in enumerate(L)]  ->  [f(i, L[i]) for i in range(len(L))]  when the element
+    slices L (evidence of a sequence); comprehensions have no statements that could change L."""
+    for comp in list(_walk_no_nested(fn)):
+        if not isinstance(comp, (ast.ListComp, ast.SetComp, ast.GeneratorExp, ast.DictComp)) or len(comp.generators) != 1:
+            continue
+        g = comp.generators[0]
+        it, tg = g.iter, g.target
+        if not (isinstance(it, ast.Call) and isinstance(it.func, ast.Name) and it.func.id == "enumerate" and len(it.args) == 1 and not it.keywords and isinstance(it.args[0], ast.Name)):
+            continue
+        if not (isinstance(tg, ast.Tuple) and len(tg.elts) == 2 and all(isinstance(x, ast.Name) for x in tg.elts)):
+            continue
+        i, x, L = tg.elts[0].id, tg.elts[1].id, it.args[0].id
+        if len({i, x, L}) != 3:
+            continue
+        parts = ([comp.key, comp.value] if isinstance(comp, ast.DictComp) else [comp.elt]) + list(g.ifs)
+        if g.ifs:
+            continue  # a filtered element may never evaluate the slice
+        if not any(isinstance(y, ast.Subscript) and isinstance(y.slice, ast.Slice) and isinstance(y.value, ast.Name) and y.value.id == L for p_ in parts for y in ast.walk(p_)):
+            continue
+        if any(_impure(p_) for p_ in parts):
+            continue
+        look = ast.Subscript(value=ast.Name(id=L, ctx=ast.Load()), slice=ast.Name(id=i, ctx=ast.Load()), ctx=ast.Load())
+        for p_ in parts:
+            for y in list(ast.walk(p_)):
+                if isinstance(y, ast.Name) and y.id == x and isinstance(y.ctx, ast.Load):
+                    if not _replace_node(comp, y, copy.deepcopy(look)):
+                        pass
+        g.target = ast.Name(id=i, ctx=ast.Store())
+        g.iter = ast.Call(func=ast.Name(id="range", ctx=ast.Load()), args=[ast.Call(func=ast.Name(id="len", ctx=ast.Load()), args=[ast.Name(id=L, ctx=ast.Load())], keywords=[])], keywords=[])
+    ast.fix_missing_locations(fn)
+    return fn
+
+
 def _items_to_keys(fn):
     """for k, v in D.items()  ->  for k in D  with v replaced by D[k]  (comprehensions, and loops whose
     body does not write D): one normal form for the two spellings."""
@@ -1847,6 +2138,7 @@ def expressions(fn):
     fn = _items_to_keys(fn)
     fn = _enumerate_start(fn)
     fn = _enumerate_to_range(fn)
+    fn = _enumerate_to_range_comp(fn)
     fn = _dict_forward(fn)
     fn = _ExprCanon(_list_names(fn)).visit(fn)
     # P = P
@@ -1973,7 +2265,11 @@ def _write_effects(st) -> Tuple[Set[str], Set[str], bool]:
             if isinstance(n.func, ast.Attribute) and isinstance(n.func.value, ast.Call) and isinstance(n.func.value.func, ast.Name) and n.func.value.func.id == "super":
                 opaque = True
             if isinstance(n.func, ast.Name) and n.func.id in _REPO_FUNCS and n.func.id not in _PURE_FUNCS:
-                opaque = True
+                ma = _mutated_args(n)
+                if ma is None:
+                    opaque = True
+                else:
+                    names |= ma  # the function only changes these arguments
             if any(k.arg == "inplace" for k in n.keywords):
                 opaque = True
         elif isinstance(n, (ast.Yield, ast.YieldFrom)) and _YIELD_OPAQUE:
@@ -2127,8 +2423,9 @@ def inline_temporaries(fn, only=None):
                     if p2 is None or p2 < lo or p2 > hi:
                         continue
                     is_use_stmt = any(s2 is us for us in use_stmts)
-                    if is_use_stmt and p2 == last and not isinstance(s2, (ast.For, ast.While)) and sum(1 for us in use_stmts if us is s2) == 1:
-                        continue  # operands are evaluated before the statement takes effect
+                    in_later_loop = any(isinstance(a_, (ast.For, ast.While)) and order[id(a_)] > d_pos for a_ in chain[id(s2)])
+                    if is_use_stmt and p2 == last and not isinstance(s2, (ast.For, ast.While)) and sum(1 for us in use_stmts if us is s2) == 1 and not in_later_loop:
+                        continue  # operands are evaluated before the statement takes effect (not so on the next iteration of a loop entered after the definition)
                     if isinstance(s2, (ast.Assert, ast.Raise)) and p2 < first:
                         bad = True
                         break
@@ -2142,8 +2439,8 @@ def inline_temporaries(fn, only=None):
                     if opaque and not reads_state and call_reads and call_reads & {x.id for x in ast.walk(s2) if isinstance(x, ast.Name)} and not (is_use_stmt and p2 == last):
                         bad = True
                         break
-                    if opaque and reads_state and not is_use_stmt:
-                        bad = True
+                    if opaque and reads_state and (not is_use_stmt or in_later_loop):
+                        bad = True  # (a use inside a loop runs again after the statement's own call)
                         break
                     if opaque and reads_state and is_use_stmt and p2 != last:
                         bad = True
@@ -2602,6 +2899,12 @@ def canonical_names(fn):
                 _RenameNames(cmap).visit(ch)
                 ch.generators[0].iter = first_iter
                 rename_comps(ch, depth + 1)
+            elif isinstance(ch, ast.Lambda) and not ch.args.defaults and not ch.args.kw_defaults:
+                # the parameters of a lambda live in the lambda: named by nesting depth and position
+                lmap = {a.arg: f"_l{depth}_{k}" for k, a in enumerate(ch.args.posonlyargs + ch.args.args + ch.args.kwonlyargs)}
+                _RenameNames(lmap).visit(ch)
+                local_names.difference_update(set())
+                rename_comps(ch, depth + 1)
             elif not isinstance(ch, (ast.FunctionDef, ast.AsyncFunctionDef, ast.ClassDef)):
                 rename_comps(ch, depth)
 
@@ -2675,6 +2978,7 @@ def canon(fn, table: Optional[HelperTable] = None):
         fn = drop_unused(fn)
         fn = fuse_chains(fn)
         fn = merge_param_alias(fn)
+        fn = coalesce_dead_copies(fn)
         fn = split_variables(fn)
         fn = inline_temporaries(fn)
         for owner, f, stmts in _blocks(fn):
@@ -2924,7 +3228,7 @@ def _yield_is_barrier(fn) -> bool:
 def substitute_all(trees: Dict[str, ast.Module], sources: Dict[str, str], ref_sources: Dict[str, str], stats: Dict[str, list]) -> None:
     """All modules at once: new private methods can be called from another module (a helper added
     to a base class)."""
-    global _REPO_FUNCS, _PURE_FUNCS, _LIST_RETURNING, _EAGER_GENERATORS
+    global _REPO_FUNCS, _PURE_FUNCS, _LIST_RETURNING, _EAGER_GENERATORS, _PARAM_MUT
     ref_trees = []
     for rel, src in ref_sources.items():
         if rel not in _REF_CACHE:
@@ -2949,6 +3253,9 @@ def substitute_all(trees: Dict[str, ast.Module], sources: Dict[str, str], ref_so
     _REPO_FUNCS = repo_a | repo_b
     _EAGER_GENERATORS = eager_generators(list(trees.values())) & eager_generators(ref_trees)
     _PURE_FUNCS = {f for f in (pure_a | pure_b) if (f not in repo_a or f in pure_a) and (f not in repo_b or f in pure_b)}
+    pm_a = param_mutation_summaries(ref_trees, pure_a, repo_a)
+    pm_b = param_mutation_summaries(list(trees.values()), pure_b, repo_b)
+    _PARAM_MUT = {f: (pm_a[f][0], pm_a[f][1] | pm_b[f][1]) for f in pm_a if f in pm_b and pm_a[f][0] == pm_b[f][0] and f not in _PURE_FUNCS}
     new_methods: Dict[str, ast.FunctionDef] = {}
     owners: Dict[str, Tuple[str, List[ast.stmt]]] = {}
     dup: Set[str] = set()
